@@ -300,6 +300,7 @@ class ImplRun(object):
         self.delays = []
         self.raw = []            # per event: the outputs in the order the implementation produced them
         self.snaps = []          # per event: observable state AFTER the event (see snapshot())
+        self.applied = []        # per event: a scripted client result was delivered to the producer by this event
         api = {0: None, 1: 0, 2: "table"}[cfg["api"]]
         if api == "table":
             from afkak.common import ApiVersion
@@ -532,8 +533,10 @@ class ImplRun(object):
     def apply(self, ev):
         """ev: python-level event tuple; appends the model event and the step outputs"""
         self.cur = []
+        self.result_applied = False
         mev = self._apply(ev)
         self.events.append(mev)
+        self.applied.append(self.result_applied)
         self.raw.append(list(self.cur))
         self.trace.append(sorted(self.cur))
         self.cur = None
@@ -648,6 +651,7 @@ class ImplRun(object):
             if c.request is not None and not c.request[0].called and self.value_ok(v):
                 d = c.request[0]
                 c.request = None
+                self.result_applied = True
                 self.fire_value(d, v)
             return mev
         if op == "stop":
